@@ -1,18 +1,22 @@
 #!/bin/bash
-# tools/try_seed.sh <patch.diff> [IDs...] : apply a seeded change to /repo, run the quick checks (all, or
-# the listed ones), report which raise an alarm, and undo the change straight afterwards.
+# tools/try_seed.sh <patch.diff> [IDs...] : apply a seeded change to the repository under test (/repo, or
+# $VERIF_REPO), run the quick checks (all, or the listed ones), report which raise an alarm, and undo the change
+# straight afterwards.
 patch=$1; shift
 ids="$@"
-[ -z "$ids" ] && ids=$(python3 -c "import json; print(' '.join(c['property_id'] for c in json.load(open('/verif/MANIFEST.json'))['checks']))")
-cd /verif
-git -C /repo diff --quiet || { echo "/repo is dirty"; exit 2; }
-git -C /repo apply $patch || { echo "patch does not apply"; exit 2; }
-trap 'git -C /repo checkout -- . ; git -C /repo clean -qfd src' EXIT
+here="$(cd "$(dirname "$0")/.." && pwd)"
+repo=${VERIF_REPO:-/repo}
+[ -z "$ids" ] && ids=$(python3 -c "import json; print(' '.join(c['property_id'] for c in json.load(open('$here/MANIFEST.json'))['checks']))")
+cd "$here"
+git -C $repo diff --quiet || { echo "$repo is dirty"; exit 2; }
+git -C $repo apply $patch || { echo "patch does not apply"; exit 2; }
+trap 'git -C $repo checkout -- . ; git -C $repo clean -qfd src' EXIT
 fired=""
+tmp=${RUNALL_OUT:-/tmp}
 for id in $ids; do
-  timeout 600 ./check $id --tier ${TIER:-quick} > /tmp/verif_seedrun_$id.log 2>&1
+  timeout 900 ./check $id --tier ${TIER:-quick} > $tmp/verif_seedrun_$id.log 2>&1
   rc=$?
   if [ $rc -ne 0 ]; then fired="$fired $id(rc=$rc)"; fi
 done
 echo "FIRED:$fired"
-for id in $ids; do grep -h -A2 "^VIOLATION" /tmp/verif_seedrun_$id.log | head -6; grep -h "MACHINERY" /tmp/verif_seedrun_$id.log | head -2; done
+for id in $ids; do grep -h -A2 "^VIOLATION" $tmp/verif_seedrun_$id.log | head -6; grep -h "MACHINERY" $tmp/verif_seedrun_$id.log | head -2; done
